@@ -758,6 +758,7 @@ def corr_match_stereo(ck, cs):
                 if not un and rng.random() < .9:
                     continue
                 obs = []
+                keyed = []
                 bad = False
                 for mp in un:
                     try:
@@ -769,12 +770,19 @@ def corr_match_stereo(ck, cs):
                         bad = True
                         break
                     obs.append(tup(opt(fm, lambda f: lst([tup(zraw(k), zraw(v)) for k, v in f.items()])), zpairs(cl), zadj(bd)))
+                    keyed.append(tup(lst([tup(zraw(k), zraw(v)) for k, v in mp.items()]), obs[-1]))
                 if bad:
                     ck.count('match_stereo:skipped')
                     continue
                 got, err = drain(p.get_mapping(t, automorphism_filter=flt, match_stereo=True))
                 cs.add(f'pyres_eqb maps_eqb (match_stereo_stream Z.eqb {b(flt)} {lst(obs)}) {res_maps(got, err)}',
                        ('MoleculeIsomorphism.get_mapping(match_stereo=True)', ptxt, ttxt, flt))
+                # the whole call through the model's own search (compile, components, image-set filter), the oracle looked up per embedding;
+                # and the hypothesis of C07_match_stereo_filtered_distinct on this oracle
+                tc = [sorted(c) for c in t.connected_components]
+                cs.add(f'pyres_eqb maps_eqb (mm_get_mapping_match_stereo {coqmol.mol_term(p)} {coqmol.mol_term(t)} {zll(tc)} {b(flt)} None {lst(keyed)}) '
+                       f'{res_maps(got, err)} && oracle_keeps_imageb (B := Z) {lst(keyed)}',
+                       ('MoleculeIsomorphism.get_mapping(match_stereo=True) whole call', ptxt, ttxt, flt))
                 ck.case(('match-stereo', ptxt, ttxt, flt), nontrivial=bool(got))
                 ck.count(f'match_stereo:filter={int(flt)}:found={min(len(un), 3)}:yielded={min(len(got or []), 4)}')
 
@@ -789,7 +797,7 @@ def correspondence(ck):
     corr_automorphism(ck, cs)
     corr_stereo(ck, cs)
     corr_match_stereo(ck, cs)
-    ok, failing, log = coqcases.run_cases('c07', 'Iso Graph IsoStereo', cs.exprs, shard=250, extra='From Proofs Require Import IsoProofs IsoExt.')
+    ok, failing, log = coqcases.run_cases('c07', 'Iso Graph IsoStereo', cs.exprs, shard=250, extra='From Proofs Require Import IsoProofs IsoExt IsoMatchStereo.')
     good = ok and not failing
     ck.oblige('correspondence: lazy_product, _compile_query, _get_mapping, Isomorphism._get_mapping (sequence of mappings, order included), '
               'operators, _get_automorphism_mapping == Coq model', good, 'correspondence', log or str([cs.meta[i] for i in failing[:5]]))
@@ -1418,6 +1426,7 @@ def search_stereo(ck):
                           replay_py=f'from chython import smiles, smarts; print(list(smarts({s_!r}).get_mapping(smiles({ttxt!r}), _cython=False)))')
 
 
+SELF_TEXTS_CT = ['F/C=C/F', 'F/C=C(/Br)I', 'F/C(Cl)=C(/Br)I', 'Cl/C(F)=C/Br', 'F/C=C(Br)/I', 'F/C(Cl)=C(Br)/I', 'ClC(/F)=C/Br', 'C/C=C(C)/CC', 'C/C=C(/C)CC']
 SELF_TEXTS = ['[C@](F)(Cl)(Br)I', 'F[C@](Cl)(Br)I', 'F[C@]1(Cl)CC1C', 'C1C(C)[C@]1(F)Cl', 'C[C@]1(F)CCCC1Cl', '[C@]12(F)CC1CCC2', 'C[C@](F)(Cl)CC',
               'F/C=C/F', 'C/C=C(/F)Cl', '[C@]1(F)(Cl)CC1C', '[C@@]1(F)(Cl)CC1C', 'C[C@@]1(F)CC1(C)C', 'F[C@@]1(Cl)CCC1C']
 
@@ -1433,7 +1442,7 @@ def search_self_text(ck):
     except Exception:  # noqa
         return
     bad = []
-    for x in SELF_TEXTS:
+    for x in SELF_TEXTS + SELF_TEXTS_CT:
         rm, rq = Chem.MolFromSmiles(x), Chem.MolFromSmarts(x)
         if rm is None or rq is None or not rm.GetSubstructMatches(rq, useChirality=True):
             ck.count('search:self-text:not-confirmed-by-rdkit')
@@ -1445,11 +1454,17 @@ def search_self_text(ck):
         ck.case(('search-self-text', x), nontrivial=True)
         ck.count(f'search:self-text:{"ok" if got else "fails"}')
         if not got:
-            bad.append((0 if re.search(r'\[C@@?\]\d', x) else 1, len(x), x, err))
-    for kind, _, x, err in sorted(bad)[:1]:
-        ck.counterexample('smarts-ring-closure-chirality-order' if kind == 0 else f'self-text:{x}',
-                          'a molecule does not match its own text read as a query: smarts() stores another chirality sign than smiles() for the same text '
-                          '(ring-closure digit written directly after the chiral atom: its bond is the FIRST neighbour for SMILES, the last for the SMARTS reader)',
+            bad.append((0 if re.search(r'\[C@@?\]\d', x) else 1 if ('/' in x or '\\' in x) else 2, len(x), x, err))
+    for kind in (0, 1, 2):
+        these = sorted(z for z in bad if z[0] == kind)
+        if not these:
+            continue
+        _, _, x, err = these[0]
+        ck.counterexample(('smarts-ring-closure-chirality-order', 'smarts-cis-trans-mark-order', f'self-text:{x}')[kind],
+                          'a molecule does not match its own text read as a query: smarts() stores another stereo sign than smiles() for the same text ' +
+                          ('(ring-closure digit written directly after the chiral atom: its bond is the FIRST neighbour for SMILES, the last for the SMARTS reader)',
+                           '(a / or \\ mark on a substituent that is not the first neighbour of its end: smarts() stores the flag of the MARKED atoms, the stereo '
+                           'filter and smiles() refer to the FIRST neighbours)', '')[kind],
                           {'text': x}, err or 'no mapping', 'at least the identity mapping (RDKit useChirality finds it)', 'RDKit self-match with useChirality=True',
                           replay_py=f'from chython import smiles, smarts; t = smiles({x!r}); q = smarts({x!r}); '
                                     'print([a.stereo for _, a in t.atoms()], [a.stereo for _, a in q.atoms()], list(q.get_mapping(t, _cython=False)))')
